@@ -1,4 +1,5 @@
 import UF.Proofs.Shortcut
+import UF.Proofs.ShortcutRuns
 import UF.Proofs.RegexFast
 import UF.Model.RegexParse
 /-
@@ -42,6 +43,23 @@ theorem c05_justified (shortcut : Bytes) (c : Re) (u : Bytes)
   rcases hj with rfl | ⟨l, hl, hsub⟩
   · exact hasSub_nil _
   · exact hasSub_trans (c05_re c u h l hl) hsub
+
+/-- The sharper criterion: literal pieces merged across concatenations, assertions, captures and the
+    first/last iteration of `+`/`{m,}` (`foojs+` requires `foojs`) are factors of every accepted
+    lower-cased subject as well. -/
+theorem c05_runs (r : Re) (u : Bytes) (h : search r u = true) :
+    ∀ l ∈ requiredRuns r, hasSub (toLower u) l = true :=
+  search_runs r u h
+
+/-- … hence a shortcut that is empty or contained in a merged run of the compiled expression (the
+    `spec` answer of the `c05.shortcut` op) is a factor of every accepted lower-cased subject. -/
+theorem c05_justified_runs (shortcut : Bytes) (c : Re) (u : Bytes)
+    (hj : shortcutJustifiedRuns shortcut c = true) (h : search c u = true) :
+    hasSub (toLower u) shortcut = true := by
+  simp only [shortcutJustifiedRuns, Bool.or_eq_true, List.isEmpty_iff, List.any_eq_true] at hj
+  rcases hj with rfl | ⟨l, hl, hsub⟩
+  · exact hasSub_nil _
+  · exact hasSub_trans (c05_runs c u h l hl) hsub
 
 /-- `findRegexpShortcut` + `loadShortcut` for ANY list of candidates produced by the textual heuristics:
     the resulting shortcut is a factor of every lower-cased subject accepted by the compiled expression
@@ -208,6 +226,11 @@ example :
       search tree.foldCase (lit "http://x.com/foo") = true ∧
       hasSub (lit "http://x.com/foo") (lit "barbaz") = false ∧
       findRegexpShortcut [lit "foo", lit "barbaz"] (some tree) = [] := by decide
+
+/-- `foojs+`: the merged runs see `foojs`, the plain required literals only `fooj` and `s`. -/
+example :
+    let r : Re := .cat (.lit (lit "fooj") true) (.plus (.lit (lit "S") true))
+    shortcutJustifiedRuns (lit "foojs") r = true ∧ shortcutJustified (lit "foojs") r = false := by decide
 
 /-- `findShortcut "||example.org^*banner"` = `example.org`, a maximal run. -/
 example : findShortcut (lit "||example.org^*banner") = some (lit "example.org") := by decide
